@@ -3,25 +3,62 @@
 use vstd::prelude::*;
 use std::num::NonZeroU64;
 use std::cmp::Ordering;
+use std::convert::identity;
 use vstd::std_specs::ops::*;
 use vstd::std_specs::cmp::*;
 verus! {
 global size_of usize == 8;
 
-// ================= floats stay uninterpreted =================
+// ================= floats: operations are uninterpreted but DETERMINISTIC functions of their operands =================
 // Rust float arithmetic never traps (vstd gives + - * / an open precondition)
 #[verifier::external_body] pub proof fn axiom_float_total()
   ensures forall|a: f64, b: f64| #[trigger] AddSpec::add_req(a, b), forall|a: f64, b: f64| #[trigger] SubSpec::sub_req(a, b),
           forall|a: f64, b: f64| #[trigger] MulSpec::mul_req(a, b), forall|a: f64, b: f64| #[trigger] DivSpec::div_req(a, b) {}
+// the same fact for one pair of operands (Verus attaches no type invariant to an f64 FIELD of a struct without primitive-integer fields,
+// so the quantified form above does not fire on `c.mean`)
+#[verifier::external_body] pub proof fn axiom_float_total_at(a: f64, b: f64)
+  ensures AddSpec::add_req(a, b), SubSpec::sub_req(a, b), MulSpec::mul_req(a, b), DivSpec::div_req(a, b),
+          AddSpec::add_req(b, a), SubSpec::sub_req(b, a), MulSpec::mul_req(b, a), DivSpec::div_req(b, a) {}
 // f64 comparison operators are functions of their operands
 #[verifier::external_body] proof fn axiom_f64_cmp_deterministic() ensures <f64 as PartialOrdSpec>::obeys_partial_cmp_spec() {}
+// f64 + - * / == are functions of their operands (the exec operator returns the spec-level operation symbol)
+#[verifier::external_body] proof fn axiom_f64_ops_deterministic()
+  ensures <f64 as AddSpec>::obeys_add_spec(), <f64 as SubSpec>::obeys_sub_spec(), <f64 as MulSpec>::obeys_mul_spec(), <f64 as DivSpec>::obeys_div_spec(),
+          <f64 as PartialOrdSpec>::obeys_partial_cmp_spec(), <f64 as PartialEqSpec>::obeys_eq_spec() {}
 pub uninterp spec fn f_is_nan(x: f64) -> bool;
 pub uninterp spec fn f_is_inf(x: f64) -> bool;
 spec fn f_lt(a: f64, b: f64) -> bool { a.partial_cmp_spec(&b) == Some(Ordering::Less) }
 spec fn f_gt(a: f64, b: f64) -> bool { a.partial_cmp_spec(&b) == Some(Ordering::Greater) }
-spec fn f_finite(x: f64) -> bool { !f_is_nan(x) && !f_is_inf(x) }
+// (the `matches` form is the one vstd uses for `<=` / `>=`; it needs no type invariant on the operands)
+spec fn f_le(a: f64, b: f64) -> bool { a.partial_cmp_spec(&b) matches Some(Ordering::Less | Ordering::Equal) }
+spec fn f_ge(a: f64, b: f64) -> bool { a.partial_cmp_spec(&b) matches Some(Ordering::Greater | Ordering::Equal) }
+spec fn f_eq(a: f64, b: f64) -> bool { a.eq_spec(&b) }
+spec fn fadd(a: f64, b: f64) -> f64 { a.add_spec(b) }
+spec fn fsub(a: f64, b: f64) -> f64 { a.sub_spec(b) }
+spec fn fmul(a: f64, b: f64) -> f64 { a.mul_spec(b) }
+spec fn fdiv(a: f64, b: f64) -> f64 { a.div_spec(b) }
+// `x as f64` for x: u64 (round to nearest): a function of x
+pub uninterp spec fn u2f(x: u64) -> f64;
+#[verifier::external_body] fn vx_u64_as_f64(x: u64) -> (r: f64) ensures r == u2f(x) { x as f64 }
+pub open spec fn f_finite(x: f64) -> bool { !f_is_nan(x) && !f_is_inf(x) }
 // IEEE: a comparison with a NaN operand is false
 #[verifier::external_body] proof fn axiom_lt_not_nan(a: f64, b: f64) requires f_lt(a, b) ensures !f_is_nan(a), !f_is_nan(b) {}
+// ORDER axioms of IEEE comparison (each discharged by a complete Kani harness over all pairs / triples of f64, kani/shims_td_float.rs)
+// antisymmetry: a < b  <=>  b > a ;  a == b  <=>  b == a
+#[verifier::external_body] proof fn axiom_f64_cmp_flip(a: f64, b: f64)
+  ensures f_lt(a, b) <==> f_gt(b, a), (a.partial_cmp_spec(&b) == Some(Ordering::Equal)) <==> (b.partial_cmp_spec(&a) == Some(Ordering::Equal)) {}
+// transitivity
+#[verifier::external_body] proof fn axiom_f64_le_lt_trans(a: f64, b: f64, c: f64) requires f_le(a, b), f_lt(b, c) ensures f_lt(a, c) {}
+#[verifier::external_body] proof fn axiom_f64_lt_le_trans(a: f64, b: f64, c: f64) requires f_lt(a, b), f_le(b, c) ensures f_lt(a, c) {}
+#[verifier::external_body] proof fn axiom_f64_le_trans(a: f64, b: f64, c: f64) requires f_le(a, b), f_le(b, c) ensures f_le(a, c) {}
+// totality on non-NaN operands: partial_cmp is None exactly when an operand is NaN
+#[verifier::external_body] proof fn axiom_f64_cmp_total(a: f64, b: f64) ensures (a.partial_cmp_spec(&b) is None) <==> (f_is_nan(a) || f_is_nan(b)) {}
+#[verifier::external_body] proof fn axiom_f64_le_refl(a: f64) requires !f_is_nan(a) ensures f_le(a, a) {}
+// f64::min / f64::max bracket their non-NaN operands
+#[verifier::external_body] proof fn axiom_f64_min_max(a: f64, b: f64)
+  ensures !f_is_nan(a) ==> f_le(f_min(a, b), a) && f_le(a, f_max(a, b)), !f_is_nan(b) ==> f_le(f_min(a, b), b) && f_le(b, f_max(a, b)) {}
+// f64::max is the least upper bound of its operands in the IEEE order (Kani: td_ax_max_lub, every triple)
+#[verifier::external_body] proof fn axiom_f64_max_lub(a: f64, b: f64, c: f64) requires f_le(a, c), f_le(b, c) ensures f_le(f_max(a, b), c) {}
 pub assume_specification [ f64::is_nan ] (x: f64) -> (r: bool) ensures r == f_is_nan(x);
 pub assume_specification [ f64::is_infinite ] (x: f64) -> (r: bool) ensures r == f_is_inf(x);
 // min / max are functions of their operands (uninterpreted): enough to pin WHICH values the extremes are refreshed from
@@ -30,9 +67,6 @@ pub uninterp spec fn f_max(a: f64, b: f64) -> f64;
 pub assume_specification [ f64::min ] (a: f64, b: f64) -> (r: f64) ensures r == f_min(a, b);
 pub assume_specification [ f64::max ] (a: f64, b: f64) -> (r: f64) ensures r == f_max(a, b);
 
-// the float interpolation of TDigestView::{rank, quantile} is a function of the view (uninterpreted): pins that the wrappers DELEGATE to it
-pub uninterp spec fn view_rank_spec(min: f64, max: f64, cs: Seq<Centroid>, w: u64, v: f64) -> Option<f64>;
-pub uninterp spec fn view_quantile_spec(min: f64, max: f64, cs: Seq<Centroid>, w: u64, q: f64) -> Option<f64>;
 // `(0.0..=1.0).contains(&rank)`: the documented argument range of quantile (floats stay uninterpreted)
 pub uninterp spec fn f_in_unit(x: f64) -> bool;
 #[verifier::external_body] fn vx_in_unit_interval(rank: &f64) -> (r: bool) ensures r == f_in_unit(*rank) { (0.0..=1.0).contains(rank) }
@@ -47,6 +81,7 @@ spec fn sp_valid(s: Seq<f64>) -> bool {
 }
 #[verifier::external_body] fn vx_f64_infinity() -> f64 { f64::INFINITY }
 #[verifier::external_body] fn vx_f64_neg_infinity() -> f64 { f64::NEG_INFINITY }
+#[verifier::external_body] fn vx_f64_epsilon() -> f64 { f64::EPSILON }
 // error.rs: only the fact that an error value is built
 struct Error { k: u8 }
 impl Error {
@@ -54,8 +89,11 @@ impl Error {
 }
 
 // ================= std leaves =================
-pub assume_specification<T, F: FnMut(&T, &T) -> Ordering> [ <[T]>::sort_by ] (s: &mut [T], compare: F)
-  ensures final(s)@.len() == old(s)@.len(), final(s)@.to_multiset() == old(s)@.to_multiset();
+// `buffer.sort_by(centroid_cmp)` (the body is the original statement): a permutation, ascending by mean; centroid_cmp is unreachable!() on NaN
+#[verifier::external_body] fn vx_sort_by_centroid_cmp(b: &mut Vec<Centroid>)
+  requires means_finite(old(b)@)
+  ensures final(b)@.len() == old(b)@.len(), final(b)@.to_multiset() == old(b)@.to_multiset(), means_sorted(final(b)@)
+{ b.sort_by(centroid_cmp) }
 pub assume_specification<T> [ <[T]>::reverse ] (s: &mut [T])
   ensures final(s)@ == old(s)@.reverse();
 // R14: `X.extend(std::mem::take(&mut Y))`
@@ -75,7 +113,13 @@ pub assume_specification<T> [ <[T]>::reverse ] (s: &mut [T])
 const DEFAULT_K : u16 = 200 ;
 
 
+
+
+
 const BUFFER_MULTIPLIER : usize = 4 ;
+
+
+
 
 
 
@@ -89,9 +133,15 @@ NonZeroU64 :: new ( 1 ) . unwrap ( ) }
 
 
 
+
+
+
 #[derive(Debug, Clone, Copy, PartialEq)]
 struct Centroid {
 mean : f64 , weight : NonZeroU64 , }
+
+
+
 
 
 
@@ -104,8 +154,14 @@ k : u16 , reverse_merge : bool , min : f64 , max : f64 , centroids : Vec < Centr
 
 
 
+
+
+
 struct TDigest {
 k : u16 , reverse_merge : bool , min : f64 , max : f64 , centroids : Vec < Centroid > , centroids_weight : u64 , }
+
+
+
 
 
 
@@ -117,6 +173,283 @@ min : f64 , max : f64 , centroids : & 'a [ Centroid ] , centroids_weight : u64 ,
 
 
 
+
+
+
+
+// ================= reference t-digest interpolation (transcribed over the float operation symbols) =================
+// Source: Dunning's MergingDigest.cdf / quantile as carried by datasketches-java TDigestDouble.getRank / getQuantile and datasketches-cpp
+// tdigest<T>::get_rank / get_quantile, WITH the three repairs recorded in known_findings (left tail divided by the total weight, right tail
+// `max - ..`, neighbour interpolation `weightedAverage(mean[i], w2, mean[i+1], w1)` as in MergingDigest).
+spec fn cw(c: Centroid) -> f64 { u2f(c.weight.get()) }
+// left-to-right float sum of the weights of cs[i..hi], starting from acc (the order of additions matters for floats)
+spec fn fsum(cs: Seq<Centroid>, i: int, hi: int, acc: f64) -> f64 decreases hi - i {
+    if i >= hi { acc } else { fsum(cs, i + 1, hi, fadd(acc, cw(cs[i]))) }
+}
+// std::lower_bound: first index >= k whose mean is NOT < v
+spec fn pp_lt(cs: Seq<Centroid>, v: f64, k: int) -> int decreases cs.len() - k {
+    if k >= cs.len() || !f_lt(cs[k].mean, v) { k } else { pp_lt(cs, v, k + 1) }
+}
+// std::upper_bound: first index >= k whose mean is > v
+spec fn pp_gt(cs: Seq<Centroid>, v: f64, k: int) -> int decreases cs.len() - k {
+    if k >= cs.len() || f_gt(cs[k].mean, v) { k } else { pp_gt(cs, v, k + 1) }
+}
+// Centroid::add: the merged mean, overflow-safe form (incremental update when `other - self` is finite, convex combination otherwise)
+pub uninterp spec fn f_fma(a: f64, b: f64, c: f64) -> f64;
+pub assume_specification [ f64::mul_add ] (a: f64, b: f64, c: f64) -> (r: f64) ensures r == f_fma(a, b, c);
+pub assume_specification [ f64::is_finite ] (x: f64) -> (r: bool) ensures r == f_finite(x);
+pub assume_specification [ NonZeroU64::checked_add ] (x: NonZeroU64, y: u64) -> (r: Option<NonZeroU64>)
+  ensures x.get() + y <= u64::MAX ==> (r matches Some(v) && v.get() == x.get() + y), x.get() + y > u64::MAX ==> r is None;
+spec fn add_mean_spec(m1: f64, w1: u64, m2: f64, w2: u64) -> f64 {
+    let sw = u2f(w1); let ow = u2f(w2); let tw = fadd(sw, ow); let ro = fdiv(ow, tw); let delta = fsub(m2, m1);
+    if f_finite(delta) { f_fma(delta, ro, m1) } else { f_fma(m1, fdiv(sw, tw), fmul(m2, ro)) }
+}
+// the merged mean of two finite means is finite (this is what the overflow-safe branch is for): IEEE fact about the formula above,
+// checked by a complete Kani harness on the REAL Centroid::add (kani/shims_td_float.rs: td_add_mean_finite)
+#[verifier::external_body] proof fn axiom_add_mean_finite(m1: f64, w1: u64, m2: f64, w2: u64)
+  requires f_finite(m1), f_finite(m2), w1 >= 1, w2 >= 1, w1 + w2 <= 0x20_0000_0000_0000
+  ensures f_finite(add_mean_spec(m1, w1, m2, w2)) {}
+// ... and lies between them (so merging neighbours keeps the centroid list sorted); also an IEEE fact about the formula, Kani harness td_add_mean_between
+#[verifier::external_body] proof fn axiom_add_mean_between(m1: f64, w1: u64, m2: f64, w2: u64)
+  requires f_finite(m1), f_finite(m2), w1 >= 1, w2 >= 1, w1 + w2 <= 0x20_0000_0000_0000
+  ensures f_le(m1, m2) ==> f_le(m1, add_mean_spec(m1, w1, m2, w2)) && f_le(add_mean_spec(m1, w1, m2, w2), m2),
+          f_le(m2, m1) ==> f_le(m2, add_mean_spec(m1, w1, m2, w2)) && f_le(add_mean_spec(m1, w1, m2, w2), m1) {}
+// weighted average CLAMPED to [x1, x2] (datasketches-java weightedAverageSorted: `Math.max(x1, Math.min(x, x2))`; x1 <= x2 at every call site)
+spec fn wavg_raw(x1: f64, w1: f64, x2: f64, w2: f64) -> f64 { fdiv(fadd(fmul(x1, w1), fmul(x2, w2)), fadd(w1, w2)) }
+spec fn wavg(x1: f64, w1: f64, x2: f64, w2: f64) -> f64 { f_max(f_min(wavg_raw(x1, w1, x2, w2), x2), x1) }
+spec fn f_in(lo: f64, v: f64, hi: f64) -> bool { f_le(lo, v) && f_le(v, hi) }
+spec fn rank_left_tail(min: f64, cs: Seq<Centroid>, cwt: f64, v: f64) -> f64 {
+    let first = cs[0].mean;
+    if f_gt(fsub(first, min), 0.0f64) {
+        if f_eq(v, min) { fdiv(0.5f64, cwt) }
+        else { fdiv(fadd(1.0f64, fmul(fdiv(fsub(v, min), fsub(first, min)), fsub(fdiv(cw(cs[0]), 2.0f64), 1.0f64))), cwt) }
+    } else { 0.0f64 }
+}
+spec fn rank_right_tail(max: f64, cs: Seq<Centroid>, cwt: f64, v: f64) -> f64 {
+    let n = cs.len() as int; let last = cs[n - 1].mean;
+    if f_gt(fsub(max, last), 0.0f64) {
+        if f_eq(v, max) { fsub(1.0f64, fdiv(0.5f64, cwt)) }
+        else { fsub(1.0f64, fdiv(fadd(1.0f64, fmul(fdiv(fsub(max, v), fsub(max, last)), fsub(fdiv(cw(cs[n - 1]), 2.0f64), 1.0f64))), cwt)) }
+    } else { 1.0f64 }
+}
+spec fn rank_lower(cs: Seq<Centroid>, v: f64) -> int { let lo0 = pp_lt(cs, v, 0); if f_lt(v, cs[lo0].mean) { lo0 - 1 } else { lo0 } }
+spec fn rank_upper(cs: Seq<Centroid>, v: f64) -> int { let up0 = pp_gt(cs, v, 0); if up0 == cs.len() || f_ge(cs[up0 - 1].mean, v) { up0 - 1 } else { up0 } }
+spec fn rank_middle(cs: Seq<Centroid>, cwt: f64, v: f64) -> f64 {
+    let lo = rank_lower(cs, v); let up = rank_upper(cs, v);
+    let wb = fadd(fsum(cs, 0, lo, 0.0f64), fdiv(cw(cs[lo]), 2.0f64));
+    let wd = fadd(fsub(fsum(cs, lo, up, 0.0f64), fdiv(cw(cs[lo]), 2.0f64)), fdiv(cw(cs[up]), 2.0f64));
+    if f_gt(fsub(cs[up].mean, cs[lo].mean), 0.0f64) {
+        fdiv(fadd(wb, fdiv(fmul(wd, fsub(v, cs[lo].mean)), fsub(cs[up].mean, cs[lo].mean))), cwt)
+    } else { fdiv(fadd(wb, fdiv(wd, 2.0f64)), cwt) }
+}
+spec fn view_rank_spec(min: f64, max: f64, cs: Seq<Centroid>, w: u64, v: f64) -> Option<f64> {
+    let n = cs.len() as int;
+    if n == 0 { None }
+    else if f_lt(v, min) { Some(0.0f64) }
+    else if f_gt(v, max) { Some(1.0f64) }
+    else if n == 1 { Some(0.5f64) }
+    else if f_lt(v, cs[0].mean) { Some(rank_left_tail(min, cs, u2f(w), v)) }
+    else if f_gt(v, cs[n - 1].mean) { Some(rank_right_tail(max, cs, u2f(w), v)) }
+    else { Some(rank_middle(cs, u2f(w), v)) }
+}
+// the target weight lies between centroids i and i+1
+spec fn q_between(cs: Seq<Centroid>, i: int, weight: f64, wsf: f64, dw: f64) -> f64 {
+    let single_l = cs[i].weight.get() == 1; let single_r = cs[i + 1].weight.get() == 1;
+    if single_l && f_lt(fsub(weight, wsf), 0.5f64) { cs[i].mean }
+    else if single_r && f_le(fsub(fadd(wsf, dw), weight), 0.5f64) { cs[i + 1].mean }
+    else {
+        let lw = if single_l { 0.5f64 } else { 0.0f64 }; let rw = if single_r { 0.5f64 } else { 0.0f64 };
+        let w1 = fsub(fsub(weight, wsf), lw);
+        let w2 = fsub(fsub(fadd(wsf, dw), weight), rw);
+        wavg(cs[i].mean, w2, cs[i + 1].mean, w1)
+    }
+}
+spec fn q_walk(max: f64, cs: Seq<Centroid>, cwt: f64, weight: f64, i: int, wsf: f64) -> f64 decreases cs.len() - i {
+    let n = cs.len() as int;
+    if i >= n - 1 {
+        let w1 = fsub(fsub(weight, cwt), fdiv(cw(cs[n - 1]), 2.0f64));
+        let w2 = fsub(fdiv(cw(cs[n - 1]), 2.0f64), w1);
+        wavg(cs[n - 1].mean, w1, max, w2)
+    } else {
+        let dw = fdiv(fadd(cw(cs[i]), cw(cs[i + 1])), 2.0f64);
+        if f_gt(fadd(wsf, dw), weight) { q_between(cs, i, weight, wsf, dw) } else { q_walk(max, cs, cwt, weight, i + 1, fadd(wsf, dw)) }
+    }
+}
+spec fn view_quantile_spec(min: f64, max: f64, cs: Seq<Centroid>, w: u64, q: f64) -> Option<f64> {
+    let n = cs.len() as int; let cwt = u2f(w); let weight = fmul(q, cwt);
+    if n == 0 { None }
+    else if n == 1 { Some(cs[0].mean) }
+    else if f_lt(weight, 1.0f64) { Some(min) }
+    else if f_gt(weight, fsub(cwt, 1.0f64)) { Some(max) }
+    else {
+        let fw = cw(cs[0]); let lw = cw(cs[n - 1]);
+        if f_gt(fw, 1.0f64) && f_lt(weight, fdiv(fw, 2.0f64)) {
+            Some(fadd(min, fmul(fdiv(fsub(weight, 1.0f64), fsub(fdiv(fw, 2.0f64), 1.0f64)), fsub(cs[0].mean, min))))
+        } else if f_gt(lw, 1.0f64) && f_le(fsub(cwt, weight), fdiv(lw, 2.0f64)) {
+            Some(fsub(max, fmul(fdiv(fsub(fsub(cwt, weight), 1.0f64), fsub(fdiv(lw, 2.0f64), 1.0f64)), fsub(max, cs[n - 1].mean))))
+        } else { Some(q_walk(max, cs, cwt, weight, 0, fdiv(fw, 2.0f64))) }
+    }
+}
+// ---- invariant of a queryable view: non-empty, means sorted non-decreasing (hence NaN-free), min <= first mean, last mean <= max
+// 2^53: below it every u64 weight is an exact f64 and a merged mean stays between the two means it merges
+spec const W53: int = 0x20_0000_0000_0000;
+spec fn ole(a: f64, b: f64, rev: bool) -> bool { if rev { f_le(b, a) } else { f_le(a, b) } }
+// sorted in direction `rev` (false = non-decreasing), all pairs (i == j included: no NaN)
+#[verifier::opaque] spec fn dir_sorted(cs: Seq<Centroid>, rev: bool) -> bool { forall|i: int, j: int| 0 <= i <= j < cs.len() ==> ole(#[trigger] cs[i].mean, #[trigger] cs[j].mean, rev) }
+#[verifier::opaque] spec fn means_sorted(cs: Seq<Centroid>) -> bool { forall|i: int, j: int| 0 <= i <= j < cs.len() ==> f_le(#[trigger] cs[i].mean, #[trigger] cs[j].mean) }
+#[verifier::opaque] spec fn means_finite(cs: Seq<Centroid>) -> bool { forall|i: int| 0 <= i < cs.len() ==> f_finite(#[trigger] cs[i].mean) }
+#[verifier::opaque] spec fn values_finite(b: Seq<f64>) -> bool { forall|i: int| 0 <= i < b.len() ==> f_finite(#[trigger] b[i]) }
+// min <= first mean, last mean <= max
+spec fn bracket(min: f64, max: f64, cs: Seq<Centroid>) -> bool { cs.len() >= 1 ==> f_le(min, cs[0].mean) && f_le(cs[cs.len() - 1].mean, max) }
+proof fn lemma_ole_trans(a: f64, b: f64, c: f64, rev: bool) requires ole(a, b, rev), ole(b, c, rev) ensures ole(a, c, rev)
+{ if rev { axiom_f64_le_trans(c, b, a); } else { axiom_f64_le_trans(a, b, c); } }
+proof fn lemma_sorted_dir(cs: Seq<Centroid>) ensures means_sorted(cs) <==> dir_sorted(cs, false) { reveal(means_sorted); reveal(dir_sorted); }
+proof fn lemma_sorted_at(cs: Seq<Centroid>, i: int, j: int) requires means_sorted(cs), 0 <= i <= j < cs.len() ensures f_le(cs[i].mean, cs[j].mean) { reveal(means_sorted); }
+proof fn lemma_dir_at(cs: Seq<Centroid>, rev: bool, i: int, j: int) requires dir_sorted(cs, rev), 0 <= i <= j < cs.len() ensures ole(cs[i].mean, cs[j].mean, rev) { reveal(dir_sorted); }
+proof fn lemma_dir_single(c: Centroid, rev: bool) requires f_le(c.mean, c.mean) ensures dir_sorted(seq![c], rev) { reveal(dir_sorted); }
+proof fn lemma_sorted_empty(cs: Seq<Centroid>) requires cs.len() == 0 ensures means_sorted(cs), means_finite(cs) { reveal(means_sorted); reveal(means_finite); }
+proof fn lemma_values_empty(b: Seq<f64>) requires b.len() == 0 ensures values_finite(b) { reveal(values_finite); }
+proof fn lemma_means_at(cs: Seq<Centroid>, i: int) requires means_finite(cs), 0 <= i < cs.len() ensures f_finite(cs[i].mean) { reveal(means_finite); }
+proof fn lemma_values_at(b: Seq<f64>, i: int) requires values_finite(b), 0 <= i < b.len() ensures f_finite(b[i]) { reveal(values_finite); }
+proof fn lemma_means_push(cs: Seq<Centroid>, c: Centroid) requires means_finite(cs), f_finite(c.mean) ensures means_finite(cs.push(c)) { reveal(means_finite); }
+proof fn lemma_values_push(b: Seq<f64>, v: f64) requires values_finite(b), f_finite(v) ensures values_finite(b.push(v)) { reveal(values_finite); }
+proof fn lemma_means_update(cs: Seq<Centroid>, i: int, c: Centroid) requires means_finite(cs), 0 <= i < cs.len(), f_finite(c.mean) ensures means_finite(cs.update(i, c)) { reveal(means_finite); }
+proof fn lemma_means_append(a: Seq<Centroid>, b: Seq<Centroid>) requires means_finite(a), means_finite(b) ensures means_finite(a + b) { reveal(means_finite); }
+proof fn lemma_dir_sorted_reverse(cs: Seq<Centroid>, rev: bool) requires dir_sorted(cs, rev) ensures dir_sorted(cs.reverse(), !rev)
+{
+    reveal(dir_sorted);
+    let r = cs.reverse(); let n = cs.len() as int;
+    assert forall|i: int, j: int| 0 <= i <= j < r.len() implies ole(#[trigger] r[i].mean, #[trigger] r[j].mean, !rev) by {
+        assert(r[i] == cs[n - 1 - i] && r[j] == cs[n - 1 - j]);
+        assert(ole(cs[n - 1 - j].mean, cs[n - 1 - i].mean, rev));
+    }
+}
+proof fn lemma_push_sorted(cs: Seq<Centroid>, c: Centroid, rev: bool)
+  requires dir_sorted(cs, rev), cs.len() >= 1, ole(cs[cs.len() - 1].mean, c.mean, rev), f_le(c.mean, c.mean)
+  ensures dir_sorted(cs.push(c), rev)
+{
+    reveal(dir_sorted);
+    let r = cs.push(c); let n = cs.len() as int;
+    assert forall|i: int, j: int| 0 <= i <= j < r.len() implies ole(#[trigger] r[i].mean, #[trigger] r[j].mean, rev) by {
+        if j == n && i < n { assert(ole(cs[i].mean, cs[n - 1].mean, rev)); lemma_ole_trans(cs[i].mean, cs[n - 1].mean, c.mean, rev); }
+        else if j < n { assert(ole(cs[i].mean, cs[j].mean, rev)); }
+    }
+}
+proof fn lemma_update_last_sorted(cs: Seq<Centroid>, m: Centroid, rev: bool)
+  requires dir_sorted(cs, rev), cs.len() >= 1, ole(cs[cs.len() - 1].mean, m.mean, rev), f_le(m.mean, m.mean)
+  ensures dir_sorted(cs.update(cs.len() - 1, m), rev)
+{
+    reveal(dir_sorted);
+    let n = cs.len() as int; let r = cs.update(n - 1, m);
+    assert forall|i: int, j: int| 0 <= i <= j < r.len() implies ole(#[trigger] r[i].mean, #[trigger] r[j].mean, rev) by {
+        if j == n - 1 && i < n - 1 { assert(ole(cs[i].mean, cs[n - 1].mean, rev)); lemma_ole_trans(cs[i].mean, cs[n - 1].mean, m.mean, rev); }
+        else if j < n - 1 { assert(ole(cs[i].mean, cs[j].mean, rev)); }
+    }
+}
+// every element of a permutation satisfies what every element of the original satisfies
+proof fn lemma_perm_finite(a: Seq<Centroid>, b: Seq<Centroid>)
+  requires a.to_multiset() == b.to_multiset(), means_finite(b)
+  ensures means_finite(a)
+{
+    reveal(means_finite);
+    a.to_multiset_ensures(); b.to_multiset_ensures();
+    assert forall|i: int| 0 <= i < a.len() implies f_finite(#[trigger] a[i].mean) by {
+        assert(a.contains(a[i]));
+        assert(a.to_multiset().count(a[i]) > 0);
+        assert(b.contains(a[i]));
+        let j = choose|j: int| 0 <= j < b.len() && b[j] == a[i];
+        assert(f_finite(b[j].mean));
+    }
+}
+proof fn lemma_finite_reverse(a: Seq<Centroid>) requires means_finite(a) ensures means_finite(a.reverse())
+{
+    reveal(means_finite);
+    let r = a.reverse();
+    assert forall|i: int| 0 <= i < r.len() implies f_finite(#[trigger] r[i].mean) by { assert(r[i] == a[a.len() - 1 - i]); }
+}
+proof fn lemma_finite_le_refl(x: f64) requires f_finite(x) ensures f_le(x, x) { axiom_f64_le_refl(x); }
+spec fn view_wf(min: f64, max: f64, cs: Seq<Centroid>) -> bool {
+    cs.len() >= 1 && means_sorted(cs) && f_le(min, cs[0].mean) && f_le(cs[cs.len() - 1].mean, max)
+}
+// quantile(q) is computed by one of the two TAIL formulas `min + t * (mean_0 - min)` / `max - t * (max - mean_last)` (their range needs
+// arithmetic facts about rounding and is NOT decided here); every other branch returns min, max, a centroid mean or a clamped weighted average
+spec fn q_in_tail(cs: Seq<Centroid>, w: u64, q: f64) -> bool {
+    let n = cs.len() as int; let cwt = u2f(w); let weight = fmul(q, cwt); let fw = cw(cs[0]); let lw = cw(cs[n - 1]);
+    n >= 2 && !f_lt(weight, 1.0f64) && !f_gt(weight, fsub(cwt, 1.0f64))
+    && ((f_gt(fw, 1.0f64) && f_lt(weight, fdiv(fw, 2.0f64))) || (f_gt(lw, 1.0f64) && f_le(fsub(cwt, weight), fdiv(lw, 2.0f64))))
+}
+// order facts of a queryable view (only order axioms): every mean, min and max lie in [min, max]
+proof fn lemma_view_range(min: f64, max: f64, cs: Seq<Centroid>, i: int)
+  requires view_wf(min, max, cs), 0 <= i < cs.len()
+  ensures f_in(min, cs[i].mean, max), f_in(min, min, max), f_in(min, max, max)
+{
+    let n = cs.len() as int;
+    lemma_sorted_at(cs, 0, i); lemma_sorted_at(cs, i, n - 1); lemma_sorted_at(cs, 0, n - 1);
+    axiom_f64_le_trans(min, cs[0].mean, cs[i].mean);
+    axiom_f64_le_trans(cs[i].mean, cs[n - 1].mean, max);
+    axiom_f64_le_trans(min, cs[0].mean, cs[n - 1].mean);
+    axiom_f64_le_trans(min, cs[n - 1].mean, max);
+    axiom_f64_cmp_total(min, cs[0].mean); axiom_f64_cmp_total(cs[n - 1].mean, max);
+    axiom_f64_le_refl(min); axiom_f64_le_refl(max);
+}
+// a value between two neighbouring means (or between the last mean and max) lies in [min, max]
+proof fn lemma_between_in_range(min: f64, max: f64, cs: Seq<Centroid>, i: int)
+  requires view_wf(min, max, cs), 0 <= i, i + 1 < cs.len()
+  ensures f_le(cs[i].mean, cs[i + 1].mean),
+          forall|v: f64| #![trigger f_le(cs[i].mean, v)] f_le(cs[i].mean, v) && f_le(v, cs[i + 1].mean) ==> f_in(min, v, max)
+{
+    lemma_view_range(min, max, cs, i); lemma_view_range(min, max, cs, i + 1); lemma_sorted_at(cs, i, i + 1);
+    assert forall|v: f64| #![trigger f_le(cs[i].mean, v)] f_le(cs[i].mean, v) && f_le(v, cs[i + 1].mean) implies f_in(min, v, max) by {
+        axiom_f64_le_trans(min, cs[i].mean, v); axiom_f64_le_trans(v, cs[i + 1].mean, max);
+    }
+}
+proof fn lemma_last_to_max_in_range(min: f64, max: f64, cs: Seq<Centroid>)
+  requires view_wf(min, max, cs)
+  ensures f_le(cs[cs.len() - 1].mean, max),
+          forall|v: f64| #![trigger f_le(cs[cs.len() - 1].mean, v)] f_le(cs[cs.len() - 1].mean, v) && f_le(v, max) ==> f_in(min, v, max)
+{
+    let n = cs.len() as int;
+    lemma_view_range(min, max, cs, n - 1);
+    assert forall|v: f64| #![trigger f_le(cs[n - 1].mean, v)] f_le(cs[n - 1].mean, v) && f_le(v, max) implies f_in(min, v, max) by {
+        axiom_f64_le_trans(min, cs[n - 1].mean, v);
+    }
+}
+proof fn lemma_pp_lt(cs: Seq<Centroid>, v: f64, r: int, k: int)
+  requires 0 <= k <= r <= cs.len(), forall|j: int| 0 <= j < r ==> f_lt(#[trigger] cs[j].mean, v), forall|j: int| r <= j < cs.len() ==> !f_lt(#[trigger] cs[j].mean, v)
+  ensures pp_lt(cs, v, k) == r
+  decreases r - k
+{ if k < r { lemma_pp_lt(cs, v, r, k + 1); } }
+proof fn lemma_pp_gt(cs: Seq<Centroid>, v: f64, r: int, k: int)
+  requires 0 <= k <= r <= cs.len(), forall|j: int| 0 <= j < r ==> !f_gt(#[trigger] cs[j].mean, v), forall|j: int| r <= j < cs.len() ==> f_gt(#[trigger] cs[j].mean, v)
+  ensures pp_gt(cs, v, k) == r
+  decreases r - k
+{ if k < r { lemma_pp_gt(cs, v, r, k + 1); } }
+// a sorted slice is partitioned by `mean < v` and by `mean > v` (only order axioms)
+proof fn lemma_sorted_partitioned(cs: Seq<Centroid>, v: f64)
+  requires means_sorted(cs)
+  ensures forall|i: int, j: int| 0 <= i <= j < cs.len() && f_lt(#[trigger] cs[j].mean, v) ==> f_lt(#[trigger] cs[i].mean, v),
+          forall|i: int, j: int| 0 <= i <= j < cs.len() && f_gt(#[trigger] cs[i].mean, v) ==> f_gt(#[trigger] cs[j].mean, v)
+{
+    reveal(means_sorted);
+    assert forall|i: int, j: int| 0 <= i <= j < cs.len() && f_lt(#[trigger] cs[j].mean, v) implies f_lt(#[trigger] cs[i].mean, v) by {
+        axiom_f64_le_lt_trans(cs[i].mean, cs[j].mean, v);
+    }
+    assert forall|i: int, j: int| 0 <= i <= j < cs.len() && f_gt(#[trigger] cs[i].mean, v) implies f_gt(#[trigger] cs[j].mean, v) by {
+        axiom_f64_cmp_flip(v, cs[i].mean);
+        axiom_f64_lt_le_trans(v, cs[i].mean, cs[j].mean);
+        axiom_f64_cmp_flip(v, cs[j].mean);
+    }
+}
+// `.binary_search_by(|c| centroid_lower_bound(c, value)).unwrap_or_else(identity)`: the comparator never answers Equal, so the result is the
+// partition point of `mean < value` (standard contract of binary_search_by on a slice partitioned by the comparator). The body is the original expression.
+#[verifier::external_body] fn vx_lower_bound(cs: &[Centroid], value: f64) -> (r: usize)
+  requires forall|i: int, j: int| 0 <= i <= j < cs@.len() && f_lt(#[trigger] cs@[j].mean, value) ==> f_lt(#[trigger] cs@[i].mean, value)
+  ensures r <= cs@.len(), forall|j: int| 0 <= j < r ==> f_lt(#[trigger] cs@[j].mean, value), forall|j: int| r <= j < cs@.len() ==> !f_lt(#[trigger] cs@[j].mean, value)
+{ cs.binary_search_by(|c| centroid_lower_bound(c, value)).unwrap_or_else(identity) }
+#[verifier::external_body] fn vx_upper_bound(cs: &[Centroid], value: f64) -> (r: usize)
+  requires forall|i: int, j: int| 0 <= i <= j < cs@.len() && f_gt(#[trigger] cs@[i].mean, value) ==> f_gt(#[trigger] cs@[j].mean, value)
+  ensures r <= cs@.len(), forall|j: int| 0 <= j < r ==> !f_gt(#[trigger] cs@[j].mean, value), forall|j: int| r <= j < cs@.len() ==> f_gt(#[trigger] cs@[j].mean, value)
+{ cs.binary_search_by(|c| centroid_upper_bound(c, value)).unwrap_or_else(identity) }
 
 // ================= integer skeleton: weights =================
 spec fn wsum(cs: Seq<Centroid>) -> int decreases cs.len() {
@@ -213,21 +546,125 @@ proof fn lemma_wsum_tail(a: Seq<Centroid>, i: int)
 spec fn cap_of_k(k: u16) -> int { k * 2 + (if k < 30 { 30int } else { 10int }) }
 
 impl Centroid {
-    #[verifier::external_body]
-    fn add(&mut self, other: Centroid)
-      requires old(self).weight.get() + other.weight.get() <= u64::MAX
-      ensures final(self).weight.get() == old(self).weight.get() + other.weight.get()
-    { unimplemented!() }
+    fn add ( & mut self , other : Centroid ) requires old ( self ) . weight . get ( ) + other . weight . get ( ) <= W53 , f_finite ( old ( self ) . mean ) , f_finite ( other . mean ) ensures
+/*@C10.add_mean_between*/ forall | rev : bool | ole ( old ( self ) . mean , other . mean , rev ) ==> ole ( old ( self ) . mean , final ( self ) . mean , rev ) && ole ( final ( self ) . mean , other . mean , rev ) ,
+/*@C10.add_weight_exact*/ final ( self ) . weight . get ( ) == old ( self ) . weight . get ( ) + other . weight . get ( ) ,
+/*@C10.add_mean_reference*/ final ( self ) . mean == add_mean_spec ( old ( self ) . mean , old ( self ) . weight . get ( ) , other . mean , other . weight . get ( ) ) ,
+/*@C17.td.add_mean_finite*/ f_finite ( final ( self ) . mean ) {
+proof {
+axiom_float_total ( ) ;
+axiom_f64_ops_deterministic ( ) ;
+}
+let ( self_weight , other_weight ) = ( self . weight ( ) , other . weight ( ) ) ;
+let total_weight = self_weight + other_weight ;
+self . weight = self . weight . checked_add ( other . weight . get ( ) ) . expect ( "" ) ;
+let ( self_mean , other_mean ) = ( self . mean , other . mean ) ;
+proof {
+axiom_float_total_at ( self_mean , other_mean ) ;
+}
+let ratio_other = other_weight / total_weight ;
+let delta = other_mean - self_mean ;
+proof {
+axiom_float_total_at ( other_mean , ratio_other ) ;
+}
+self . mean = if delta . is_finite ( ) {
+delta . mul_add ( ratio_other , self_mean ) }
+else {
+let ratio_self = self_weight / total_weight ;
+self_mean . mul_add ( ratio_self , other_mean * ratio_other ) }
+;
+proof {
+axiom_add_mean_finite ( old ( self ) . mean , old ( self ) . weight . get ( ) , other . mean , other . weight . get ( ) ) ;
+axiom_add_mean_between ( old ( self ) . mean , old ( self ) . weight . get ( ) , other . mean , other . weight . get ( ) ) ;
+}
+assert (
+/*@C17.td.add_mean_finite*/ f_finite ( self . mean ) ) ;
+debug_assert! ( self . mean . is_finite ( ) ) ;
+}
 
-    fn weight ( & self ) -> f64 {
-self . weight . get ( ) as f64 }
+
+
+
+    fn weight ( & self ) -> ( r : f64 ) ensures r == cw ( * self ) {
+vx_u64_as_f64 ( self . weight . get ( ) ) }
+
+
+
 
 
 
 
 }
-#[verifier::external_body]
-fn centroid_cmp(a: &Centroid, b: &Centroid) -> Ordering { unimplemented!() }
+fn centroid_cmp ( a : & Centroid , b : & Centroid ) -> ( r : Ordering ) requires ! f_is_nan ( a . mean ) , ! f_is_nan ( b . mean ) ensures
+/*@C10.centroid_cmp_is_mean_order*/ a . mean . partial_cmp_spec ( & b . mean ) == Some ( r ) {
+proof {
+axiom_f64_ops_deterministic ( ) ;
+axiom_f64_cmp_total ( a . mean , b . mean ) ;
+}
+match a . mean . partial_cmp ( & b . mean ) {
+Some ( order ) => order , None => unreachable! ( ) , }
+}
+
+
+fn centroid_lower_bound ( c : & Centroid , value : f64 ) -> ( r : Ordering ) ensures
+/*@C10.lower_bound_comparator*/ r == ( if f_lt ( c . mean , value ) {
+Ordering :: Less }
+else {
+Ordering :: Greater }
+) {
+proof {
+axiom_f64_ops_deterministic ( ) ;
+}
+if c . mean < value {
+Ordering :: Less }
+else {
+Ordering :: Greater }
+}
+
+
+
+
+fn centroid_upper_bound ( c : & Centroid , value : f64 ) -> ( r : Ordering ) ensures
+/*@C10.upper_bound_comparator*/ r == ( if f_gt ( c . mean , value ) {
+Ordering :: Greater }
+else {
+Ordering :: Less }
+) {
+proof {
+axiom_f64_ops_deterministic ( ) ;
+}
+if c . mean > value {
+Ordering :: Greater }
+else {
+Ordering :: Less }
+}
+
+
+
+
+fn weighted_average ( x1 : f64 , w1 : f64 , x2 : f64 , w2 : f64 ) -> ( r : f64 ) ensures
+/*@C10.weighted_average*/ r == wavg ( x1 , w1 , x2 , w2 ) ,
+/*@C10.weighted_average_in_range*/ f_le ( x1 , x2 ) ==> f_le ( x1 , r ) && f_le ( r , x2 ) && ! f_is_nan ( r ) {
+proof {
+axiom_float_total ( ) ;
+axiom_f64_ops_deterministic ( ) ;
+}
+// x1 <= x2 at every call site; rounding must not push the result outside [x1, x2]
+let x = ( x1 * w1 + x2 * w2 ) / ( w1 + w2 ) ;
+proof {
+if f_le ( x1 , x2 ) {
+axiom_f64_cmp_total ( x1 , x2 ) ;
+let t = f_min ( x , x2 ) ;
+axiom_f64_min_max ( x , x2 ) ;
+axiom_f64_min_max ( t , x1 ) ;
+axiom_f64_max_lub ( t , x1 , x2 ) ;
+axiom_f64_cmp_total ( x1 , f_max ( t , x1 ) ) ;
+}
+}
+x . min ( x2 ) . max ( x1 ) }
+
+
+
 
 fn check_split_points ( split_points : & [ f64 ] ) ensures
 /*@C10.split_points_validated*/ sp_valid ( split_points @ ) , {
@@ -260,10 +697,16 @@ vx_documented_unreachable ( ) ;
 
 
 
+
+
+
 impl Default for TDigestMut {
     fn default ( ) -> ( r : Self ) ensures
 /*@C10.default_k*/ r . is_default ( ) {
 TDigestMut :: new ( DEFAULT_K ) }
+
+
+
 
 
 }
@@ -275,15 +718,20 @@ impl TDigestMut {
         &&& self.cfg_ok()
         &&& self.buffer@.len() <= self.centroids_capacity * 4
         &&& wsum(self.centroids@) == self.centroids_weight
-        &&& self.total() <= u64::MAX
+        &&& self.total() <= W53
+        &&& means_finite(self.centroids@) && values_finite(self.buffer@)
+        &&& self.ordered()
     }
+    // the centroid list is sorted by mean and bracketed by min / max: what rank / quantile / cdf / pmf rely on
+    spec fn ordered(&self) -> bool { means_sorted(self.centroids@) && bracket(self.min, self.max, self.centroids@) }
     spec fn empty(&self) -> bool { self.centroids@.len() == 0 && self.buffer@.len() == 0 }
     spec fn same_cfg(&self, o: &TDigestMut) -> bool { self.k == o.k && self.centroids_capacity == o.centroids_capacity }
 
     fn make ( k : u16 , reverse_merge : bool , min : f64 , max : f64 , mut centroids : Vec < Centroid > , centroids_weight : u64 , mut buffer : Vec < f64 > , ) -> ( r : Self ) ensures
-/*@C10.make.k_validated*/ k >= 10 , r . cfg_ok ( ) , r . k == k , r . centroids @ == centroids @ , r . buffer @ == buffer @ , r . centroids_weight == centroids_weight , r . reverse_merge == reverse_merge , {
+/*@C10.make.k_validated*/ k >= 10 , r . cfg_ok ( ) , r . k == k , r . centroids @ == centroids @ , r . buffer @ == buffer @ , r . centroids_weight == centroids_weight , r . reverse_merge == reverse_merge , r . min == min , r . max == max , {
 vx_documented_panic ( k >= 10 ) ;
-assert ( /*@C10.make.k_validated*/ k >= 10 ) ;
+assert (
+/*@C10.make.k_validated*/ k >= 10 ) ;
 let fudge = if k < 30 {
 30 }
 else {
@@ -300,7 +748,10 @@ k , reverse_merge , min , max , centroids , centroids_weight , centroids_capacit
 
 
 
-    fn update ( & mut self , value : f64 ) requires old ( self ) . wf ( ) , old ( self ) . total ( ) < u64 :: MAX ensures
+
+
+
+    fn update ( & mut self , value : f64 ) requires old ( self ) . wf ( ) , old ( self ) . total ( ) < W53 ensures
 /*@C10.update_keeps_invariant*/ final ( self ) . wf ( ) , final ( self ) . same_cfg ( old ( self ) ) ,
 /*@C10.nonfinite_ignored*/ ! f_finite ( value ) ==> * final ( self ) == * old ( self ) ,
 /*@C10.total_weight_counts_finite*/ f_finite ( value ) ==> final ( self ) . total ( ) == old ( self ) . total ( ) + 1 ,
@@ -311,10 +762,28 @@ return ;
 if self . buffer . len ( ) == self . centroids_capacity * BUFFER_MULTIPLIER {
 self . compress ( ) ;
 }
+let ghost m0 = self . min ;
+let ghost x0 = self . max ;
+let ghost b0 = self . buffer @ ;
 self . buffer . push ( value ) ;
 self . min = self . min . min ( value ) ;
 self . max = self . max . max ( value ) ;
+proof {
+lemma_values_push ( b0 , value ) ;
+if self . centroids @ . len ( ) >= 1 {
+let cs = self . centroids @ ;
+axiom_f64_cmp_total ( m0 , cs [ 0 ] . mean ) ;
+axiom_f64_cmp_total ( cs [ cs . len ( ) - 1 ] . mean , x0 ) ;
+axiom_f64_min_max ( m0 , value ) ;
+axiom_f64_min_max ( x0 , value ) ;
+axiom_f64_le_trans ( self . min , m0 , cs [ 0 ] . mean ) ;
+axiom_f64_le_trans ( cs [ cs . len ( ) - 1 ] . mean , x0 , self . max ) ;
 }
+}
+}
+
+
+
 
 
 
@@ -322,6 +791,9 @@ self . max = self . max . max ( value ) ;
 
     fn is_empty ( & self ) -> ( r : bool ) ensures r == ( self . centroids @ . len ( ) == 0 && self . buffer @ . len ( ) == 0 ) {
 self . centroids . is_empty ( ) && self . buffer . is_empty ( ) }
+
+
+
 
 
 
@@ -346,9 +818,15 @@ return Err ( Error :: invalid_argument ( format! ( "k must be at least 10, got {
 }
 proof {
 assert ( wsum ( Seq :: < Centroid > :: empty ( ) ) == 0 ) ;
+lemma_sorted_empty ( Seq :: < Centroid > :: empty ( ) ) ;
+lemma_values_empty ( Seq :: < f64 > :: empty ( ) ) ;
 }
-assert ( /*@C17.td.make_k_established*/ k >= 10 ) ;
+assert (
+/*@C17.td.make_k_established*/ k >= 10 ) ;
 Ok ( Self :: make ( k , false , vx_f64_infinity ( ) , vx_f64_neg_infinity ( ) , vec! [ ] , 0 , vec! [ ] , ) ) }
+
+
+
 
 
 
@@ -356,6 +834,9 @@ Ok ( Self :: make ( k , false , vx_f64_infinity ( ) , vx_f64_neg_infinity ( ) , 
     fn k ( & self ) -> ( r : u16 ) ensures
 /*@C10.k_getter*/ r == self . k {
 self . k }
+
+
+
 
 
 
@@ -389,15 +870,22 @@ self . view ( ) . rank ( value ) }
 
 
 
+
+
+
     fn quantile ( & mut self , rank : f64 ) -> ( r : Option < f64 > ) requires old ( self ) . wf ( ) , ensures
 /*@C10.quantile_rank_validated*/ f_in_unit ( rank ) , final ( self ) . wf ( ) , final ( self ) . same_cfg ( old ( self ) ) , final ( self ) . total ( ) == old ( self ) . total ( ) ,
 /*@C10.quantile_shape*/ r is None <==> old ( self ) . empty ( ) ,
-/*@C10.quantile_delegates*/ ! old ( self ) . empty ( ) ==> r == view_quantile_spec ( final ( self ) . min , final ( self ) . max , final ( self ) . centroids @ , final ( self ) . centroids_weight , rank ) , {
+/*@C10.quantile_delegates*/ ! old ( self ) . empty ( ) ==> r == view_quantile_spec ( final ( self ) . min , final ( self ) . max , final ( self ) . centroids @ , final ( self ) . centroids_weight , rank ) ,
+/*@C10.quantile_in_range_except_tail_formulas*/ ( ! old ( self ) . empty ( ) && ! q_in_tail ( final ( self ) . centroids @ , final ( self ) . centroids_weight , rank ) ) ==> ( r matches Some ( v ) && f_in ( final ( self ) . min , v , final ( self ) . max ) ) , {
 vx_documented_panic ( vx_in_unit_interval ( & rank ) ) ;
 if self . is_empty ( ) {
 return None ;
 }
 self . view ( ) . quantile ( rank ) }
+
+
+
 
 
 
@@ -408,6 +896,9 @@ None }
 else {
 Some ( self . min ) }
 }
+
+
+
 
 
 
@@ -424,6 +915,9 @@ Some ( self . max ) }
 
 
 
+
+
+
     fn total_weight ( & self ) -> ( r : u64 ) requires self . total ( ) <= u64 :: MAX ensures
 /*@C10.total_weight*/ r == self . centroids_weight + self . buffer @ . len ( ) {
 self . centroids_weight + self . buffer . len ( ) as u64 }
@@ -432,7 +926,10 @@ self . centroids_weight + self . buffer . len ( ) as u64 }
 
 
 
-    fn merge ( & mut self , other : & TDigestMut ) requires old ( self ) . wf ( ) , other . wf ( ) , old ( self ) . total ( ) + other . total ( ) <= u64 :: MAX ensures final ( self ) . wf ( ) , final ( self ) . same_cfg ( old ( self ) ) ,
+
+
+
+    fn merge ( & mut self , other : & TDigestMut ) requires old ( self ) . wf ( ) , other . wf ( ) , old ( self ) . total ( ) + other . total ( ) <= W53 ensures final ( self ) . wf ( ) , final ( self ) . same_cfg ( old ( self ) ) ,
 /*@C10.merge_total_weight*/ final ( self ) . total ( ) == old ( self ) . total ( ) + other . total ( ) , {
 if other . is_empty ( ) {
 proof {
@@ -445,8 +942,11 @@ axiom_centroid_vec_len ( & self . centroids ) ;
 axiom_centroid_vec_len ( & other . centroids ) ;
 }
 let mut tmp = Vec :: with_capacity ( self . centroids . len ( ) + self . buffer . len ( ) + other . centroids . len ( ) + other . buffer . len ( ) , ) ;
+proof {
+lemma_sorted_empty ( tmp @ ) ;
+}
 let mut vx_i1 = 0 ;
-while vx_i1 < self . buffer . len ( ) invariant vx_i1 <= self . buffer @ . len ( ) , tmp @ . len ( ) == vx_i1 ,
+while vx_i1 < self . buffer . len ( ) invariant vx_i1 <= self . buffer @ . len ( ) , tmp @ . len ( ) == vx_i1 , values_finite ( self . buffer @ ) , means_finite ( tmp @ ) ,
 /*@C10.merge_weight_argument*/ wsum ( tmp @ ) == vx_i1 , decreases self . buffer @ . len ( ) - vx_i1 {
 let v = self . buffer [ vx_i1 ] ;
 let ghost t0 = tmp @ ;
@@ -455,11 +955,14 @@ mean : v , weight : DEFAULT_WEIGHT , }
 ) ;
 proof {
 lemma_wsum_push ( t0 , tmp @ . last ( ) ) ;
+lemma_values_at ( self . buffer @ , vx_i1 as int ) ;
+lemma_means_push ( t0 , tmp @ . last ( ) ) ;
+assert ( tmp @ =~= t0 . push ( tmp @ . last ( ) ) ) ;
 }
 vx_i1 += 1 ;
 }
 let mut vx_i2 = 0 ;
-while vx_i2 < other . buffer . len ( ) invariant vx_i2 <= other . buffer @ . len ( ) , tmp @ . len ( ) == self . buffer @ . len ( ) + vx_i2 ,
+while vx_i2 < other . buffer . len ( ) invariant vx_i2 <= other . buffer @ . len ( ) , tmp @ . len ( ) == self . buffer @ . len ( ) + vx_i2 , values_finite ( other . buffer @ ) , means_finite ( tmp @ ) ,
 /*@C10.merge_weight_argument*/ wsum ( tmp @ ) == self . buffer @ . len ( ) + vx_i2 , decreases other . buffer @ . len ( ) - vx_i2 {
 let v = other . buffer [ vx_i2 ] ;
 let ghost t0 = tmp @ ;
@@ -468,16 +971,21 @@ mean : v , weight : DEFAULT_WEIGHT , }
 ) ;
 proof {
 lemma_wsum_push ( t0 , tmp @ . last ( ) ) ;
+lemma_values_at ( other . buffer @ , vx_i2 as int ) ;
+lemma_means_push ( t0 , tmp @ . last ( ) ) ;
+assert ( tmp @ =~= t0 . push ( tmp @ . last ( ) ) ) ;
 }
 vx_i2 += 1 ;
 }
 let mut vx_i3 = 0 ;
-while vx_i3 < other . centroids . len ( ) invariant vx_i3 <= other . centroids @ . len ( ) , tmp @ . len ( ) == self . buffer @ . len ( ) + other . buffer @ . len ( ) + vx_i3 ,
+while vx_i3 < other . centroids . len ( ) invariant vx_i3 <= other . centroids @ . len ( ) , tmp @ . len ( ) == self . buffer @ . len ( ) + other . buffer @ . len ( ) + vx_i3 , means_finite ( other . centroids @ ) , means_finite ( tmp @ ) ,
 /*@C10.merge_weight_argument*/ wsum ( tmp @ ) == self . buffer @ . len ( ) + other . buffer @ . len ( ) + wsum ( other . centroids @ . take ( vx_i3 as int ) ) , decreases other . centroids @ . len ( ) - vx_i3 {
 let c = other . centroids [ vx_i3 ] ;
 proof {
 lemma_wsum_push ( tmp @ , c ) ;
 assert ( other . centroids @ . take ( vx_i3 + 1 ) . drop_last ( ) =~= other . centroids @ . take ( vx_i3 as int ) ) ;
+lemma_means_at ( other . centroids @ , vx_i3 as int ) ;
+lemma_means_push ( tmp @ , c ) ;
 }
 tmp . push ( c ) ;
 vx_i3 += 1 ;
@@ -492,11 +1000,17 @@ self . do_merge ( tmp , self . buffer . len ( ) as u64 + other . total_weight ( 
 
 
 
+
+
+
     fn view ( & mut self ) -> ( r : TDigestView < '_ > ) requires old ( self ) . wf ( ) ensures r . centroids @ == final ( self ) . centroids @ , r . centroids_weight == final ( self ) . centroids_weight , r . min == final ( self ) . min , r . max == final ( self ) . max , old ( self ) . buffer @ . len ( ) == 0 ==> * final ( self ) == * old ( self ) , final ( self ) . wf ( ) , final ( self ) . same_cfg ( old ( self ) ) , final ( self ) . total ( ) == old ( self ) . total ( ) , final ( self ) . buffer @ . len ( ) == 0 , ! old ( self ) . empty ( ) ==> final ( self ) . centroids @ . len ( ) >= 1 , {
 self . compress ( ) ;
 TDigestView {
 min : self . min , max : self . max , centroids : & self . centroids , centroids_weight : self . centroids_weight , }
 }
+
+
+
 
 
 
@@ -516,6 +1030,9 @@ self . view ( ) . cdf ( split_points ) }
 
 
 
+
+
+
     fn pmf ( & mut self , split_points : & [ f64 ] ) -> ( r : Option < Vec < f64 >> ) requires old ( self ) . wf ( ) , ensures
 /*@C10.split_points_validated*/ sp_valid ( split_points @ ) , final ( self ) . wf ( ) , final ( self ) . total ( ) == old ( self ) . total ( ) ,
 /*@C10.pmf_shape*/ r is None <==> old ( self ) . empty ( ) ,
@@ -530,8 +1047,14 @@ self . view ( ) . pmf ( split_points ) }
 
 
 
+
+
+
     fn is_single_value ( & self ) -> ( r : bool ) requires self . total ( ) <= u64 :: MAX ensures r == ( self . total ( ) == 1 ) {
 self . total_weight ( ) == 1 }
+
+
+
 
 
 
@@ -547,8 +1070,11 @@ proof {
 axiom_centroid_vec_len ( & self . centroids ) ;
 }
 let mut tmp = Vec :: with_capacity ( self . buffer . len ( ) + self . centroids . len ( ) ) ;
+proof {
+lemma_sorted_empty ( tmp @ ) ;
+}
 let mut vx_i1 = 0 ;
-while vx_i1 < self . buffer . len ( ) invariant vx_i1 <= self . buffer @ . len ( ) , tmp @ . len ( ) == vx_i1 ,
+while vx_i1 < self . buffer . len ( ) invariant vx_i1 <= self . buffer @ . len ( ) , tmp @ . len ( ) == vx_i1 , values_finite ( self . buffer @ ) , means_finite ( tmp @ ) ,
 /*@C10.compress_weight_argument*/ wsum ( tmp @ ) == vx_i1 , decreases self . buffer @ . len ( ) - vx_i1 {
 let v = self . buffer [ vx_i1 ] ;
 let ghost t0 = tmp @ ;
@@ -557,6 +1083,9 @@ mean : v , weight : DEFAULT_WEIGHT , }
 ) ;
 proof {
 lemma_wsum_push ( t0 , tmp @ . last ( ) ) ;
+lemma_values_at ( self . buffer @ , vx_i1 as int ) ;
+lemma_means_push ( t0 , tmp @ . last ( ) ) ;
+assert ( tmp @ =~= t0 . push ( tmp @ . last ( ) ) ) ;
 }
 vx_i1 += 1 ;
 }
@@ -566,7 +1095,13 @@ self . do_merge ( tmp , self . buffer . len ( ) as u64 ) }
 
 
 
-    fn do_merge ( & mut self , mut buffer : Vec < Centroid > , weight : u64 ) requires old ( self ) . cfg_ok ( ) , wsum ( old ( self ) . centroids @ ) == old ( self ) . centroids_weight , buffer @ . len ( ) >= 1 , wsum ( buffer @ ) == weight , old ( self ) . centroids_weight + weight <= u64 :: MAX , ensures final ( self ) . cfg_ok ( ) , final ( self ) . same_cfg ( old ( self ) ) ,
+
+
+
+    fn do_merge ( & mut self , mut buffer : Vec < Centroid > , weight : u64 ) requires old ( self ) . cfg_ok ( ) , wsum ( old ( self ) . centroids @ ) == old ( self ) . centroids_weight , buffer @ . len ( ) >= 1 , wsum ( buffer @ ) == weight , old ( self ) . centroids_weight + weight <= W53 , means_finite ( old ( self ) . centroids @ ) , means_finite ( buffer @ ) , ensures final ( self ) . cfg_ok ( ) , final ( self ) . same_cfg ( old ( self ) ) ,
+/*@C10.merge_means_finite*/ means_finite ( final ( self ) . centroids @ ) , values_finite ( final ( self ) . buffer @ ) ,
+/*@C10.merge_keeps_sorted*/ means_sorted ( final ( self ) . centroids @ ) ,
+/*@C10.merge_brackets*/ bracket ( final ( self ) . min , final ( self ) . max , final ( self ) . centroids @ ) ,
 /*@C10.centroids_weight_adds*/ final ( self ) . centroids_weight == old ( self ) . centroids_weight + weight ,
 /*@C10.weights_conserved*/ wsum ( final ( self ) . centroids @ ) == final ( self ) . centroids_weight ,
 /*@C10.buffer_cleared*/ final ( self ) . buffer @ . len ( ) == 0 , 1 <= final ( self ) . centroids @ . len ( ) <= buffer @ . len ( ) + old ( self ) . centroids @ . len ( ) ,
@@ -576,16 +1111,22 @@ let ghost b0 = buffer @ ;
 let ghost c0 = self . centroids @ ;
 proof {
 lemma_wsum_append ( b0 , c0 ) ;
+lemma_means_append ( b0 , c0 ) ;
 }
 vx_extend_take ( & mut buffer , & mut self . centroids ) ;
 let ghost b1 = buffer @ ;
-buffer . sort_by ( centroid_cmp ) ;
+let ghost rev = self . reverse_merge ;
+vx_sort_by_centroid_cmp ( & mut buffer ) ;
 proof {
 lemma_wsum_perm ( buffer @ , b1 ) ;
+lemma_perm_finite ( buffer @ , b1 ) ;
+lemma_sorted_dir ( buffer @ ) ;
 }
 if self . reverse_merge {
 proof {
 lemma_wsum_reverse ( buffer @ ) ;
+lemma_finite_reverse ( buffer @ ) ;
+lemma_dir_sorted_reverse ( buffer @ , false ) ;
 }
 buffer . reverse ( ) ;
 }
@@ -596,13 +1137,21 @@ proof {
 lemma_wsum_push ( Seq :: < Centroid > :: empty ( ) , buffer @ [ 0 ] ) ;
 lemma_wsum_tail ( buffer @ , 0 ) ;
 assert ( buffer @ . subrange ( 0 , len as int ) =~= buffer @ ) ;
+assert ( self . centroids @ . push ( buffer @ [ 0 ] ) =~= seq ! [ buffer @ [ 0 ] ] ) ;
+lemma_means_at ( buffer @ , 0 ) ;
+lemma_finite_le_refl ( buffer @ [ 0 ] . mean ) ;
+lemma_dir_single ( buffer @ [ 0 ] , rev ) ;
+lemma_sorted_empty ( self . centroids @ ) ;
+lemma_means_push ( self . centroids @ , buffer @ [ 0 ] ) ;
 }
 self . centroids . push ( buffer [ 0 ] ) ;
 num_centroids += 1 ;
 let mut current = 1 ;
 let mut weight_so_far = 0. ;
 while current < len invariant len == buffer @ . len ( ) , 1 <= current <= len , num_centroids == self . centroids @ . len ( ) , 1 <= num_centroids <= current , self . cfg_ok ( ) , self . same_cfg ( old ( self ) ) ,
-/*@C10.centroids_weight_adds*/ self . centroids_weight == old ( self ) . centroids_weight + weight , self . buffer == old ( self ) . buffer , self . reverse_merge == old ( self ) . reverse_merge ,
+/*@C10.centroids_weight_adds*/ self . centroids_weight == old ( self ) . centroids_weight + weight , self . buffer == old ( self ) . buffer , self . reverse_merge == old ( self ) . reverse_merge , rev == self . reverse_merge , self . min == old ( self ) . min , self . max == old ( self ) . max , self . centroids_weight <= W53 ,
+/*@C10.merge_means_finite*/ means_finite ( buffer @ ) , means_finite ( self . centroids @ ) ,
+/*@C10.merge_keeps_sorted*/ dir_sorted ( buffer @ , rev ) , dir_sorted ( self . centroids @ , rev ) , ole ( self . centroids @ [ num_centroids - 1 ] . mean , buffer @ [ current - 1 ] . mean , rev ) ,
 /*@C10.weights_conserved*/ wsum ( self . centroids @ ) + wsum ( buffer @ . subrange ( current as int , len as int ) ) == self . centroids_weight , decreases len - current {
 proof {
 axiom_float_total ( ) ;
@@ -625,11 +1174,23 @@ lemma_wsum_remove ( self . centroids @ , num_centroids - 1 ) ;
 lemma_wsum_nonneg ( self . centroids @ . remove ( num_centroids - 1 ) ) ;
 }
 let ghost cs = self . centroids @ ;
+proof {
+lemma_means_at ( buffer @ , current as int ) ;
+lemma_means_at ( cs , num_centroids - 1 ) ;
+lemma_dir_at ( buffer @ , rev , current - 1 , current as int ) ;
+assert ( ole ( buffer @ [ current - 1 ] . mean , c . mean , rev ) ) ;
+lemma_ole_trans ( cs [ num_centroids - 1 ] . mean , buffer @ [ current - 1 ] . mean , c . mean , rev ) ;
+}
 if add_this {
 self . centroids [ num_centroids - 1 ] . add ( c ) ;
 proof {
-lemma_wsum_update ( cs , num_centroids - 1 , self . centroids @ [ num_centroids - 1 ] ) ;
-assert ( self . centroids @ =~= cs . update ( num_centroids - 1 , self . centroids @ [ num_centroids - 1 ] ) ) ;
+let m = self . centroids @ [ num_centroids - 1 ] ;
+lemma_wsum_update ( cs , num_centroids - 1 , m ) ;
+assert ( self . centroids @ =~= cs . update ( num_centroids - 1 , m ) ) ;
+lemma_finite_le_refl ( m . mean ) ;
+assert ( ole ( cs [ num_centroids - 1 ] . mean , m . mean , rev ) && ole ( m . mean , c . mean , rev ) ) ;
+lemma_update_last_sorted ( cs , m , rev ) ;
+lemma_means_update ( cs , num_centroids - 1 , m ) ;
 }
 }
 else {
@@ -638,6 +1199,9 @@ self . centroids . push ( c ) ;
 num_centroids += 1 ;
 proof {
 lemma_wsum_push ( cs , c ) ;
+lemma_finite_le_refl ( c . mean ) ;
+lemma_push_sorted ( cs , c , rev ) ;
+lemma_means_push ( cs , c ) ;
 }
 }
 current += 1 ;
@@ -648,14 +1212,29 @@ assert ( buffer @ . subrange ( len as int , len as int ) =~= Seq :: < Centroid >
 if self . reverse_merge {
 proof {
 lemma_wsum_reverse ( self . centroids @ ) ;
+lemma_finite_reverse ( self . centroids @ ) ;
+lemma_dir_sorted_reverse ( self . centroids @ , true ) ;
 }
 self . centroids . reverse ( ) ;
+}
+proof {
+lemma_sorted_dir ( self . centroids @ ) ;
+lemma_means_at ( self . centroids @ , 0 ) ;
+lemma_means_at ( self . centroids @ , num_centroids - 1 ) ;
+axiom_f64_min_max ( self . min , self . centroids @ [ 0 ] . mean ) ;
+axiom_f64_min_max ( self . max , self . centroids @ [ num_centroids - 1 ] . mean ) ;
 }
 self . min = self . min . min ( self . centroids [ 0 ] . mean ) ;
 self . max = self . max . max ( self . centroids [ num_centroids - 1 ] . mean ) ;
 self . reverse_merge = ! self . reverse_merge ;
 self . buffer . clear ( ) ;
+proof {
+lemma_values_empty ( self . buffer @ ) ;
 }
+}
+
+
+
 
 
 
@@ -664,11 +1243,17 @@ self . buffer . clear ( ) ;
 
 
 impl TDigest {
-    spec fn wf(&self) -> bool { self.k >= 10 && wsum(self.centroids@) == self.centroids_weight }
+    spec fn wf(&self) -> bool {
+        self.k >= 10 && wsum(self.centroids@) == self.centroids_weight && self.centroids_weight <= W53 && means_finite(self.centroids@)
+        && means_sorted(self.centroids@) && bracket(self.min, self.max, self.centroids@)
+    }
 
     fn total_weight ( & self ) -> ( r : u64 ) ensures
 /*@C10.total_weight*/ r == self . centroids_weight {
 self . centroids_weight }
+
+
+
 
 
 
@@ -683,7 +1268,10 @@ min : self . min , max : self . max , centroids : & self . centroids , centroids
 
 
 
-    fn cdf ( & self , split_points : & [ f64 ] ) -> ( r : Option < Vec < f64 >> ) ensures
+
+
+
+    fn cdf ( & self , split_points : & [ f64 ] ) -> ( r : Option < Vec < f64 >> ) requires self . wf ( ) ensures
 /*@C10.split_points_validated*/ sp_valid ( split_points @ ) ,
 /*@C10.cdf_shape*/ r is None <==> self . centroids @ . len ( ) == 0 ,
 /*@C10.cdf_pmf_len*/ r matches Some ( v ) ==> v @ . len ( ) == split_points @ . len ( ) + 1 , {
@@ -693,11 +1281,17 @@ self . view ( ) . cdf ( split_points ) }
 
 
 
-    fn pmf ( & self , split_points : & [ f64 ] ) -> ( r : Option < Vec < f64 >> ) ensures
+
+
+
+    fn pmf ( & self , split_points : & [ f64 ] ) -> ( r : Option < Vec < f64 >> ) requires self . wf ( ) ensures
 /*@C10.split_points_validated*/ sp_valid ( split_points @ ) ,
 /*@C10.pmf_shape*/ r is None <==> self . centroids @ . len ( ) == 0 ,
 /*@C10.cdf_pmf_len*/ r matches Some ( v ) ==> v @ . len ( ) == split_points @ . len ( ) + 1 , {
 self . view ( ) . pmf ( split_points ) }
+
+
+
 
 
 
@@ -710,9 +1304,15 @@ self . k }
 
 
 
+
+
+
     fn is_empty ( & self ) -> ( r : bool ) ensures
 /*@C10.frozen_is_empty*/ r == ( self . centroids @ . len ( ) == 0 ) {
 self . centroids . is_empty ( ) }
+
+
+
 
 
 
@@ -727,6 +1327,9 @@ Some ( self . min ) }
 
 
 
+
+
+
     fn max_value ( & self ) -> ( r : Option < f64 > ) ensures r is None <==> self . centroids @ . len ( ) == 0 , r matches Some ( v ) ==> v == self . max {
 if self . is_empty ( ) {
 None }
@@ -737,7 +1340,10 @@ Some ( self . max ) }
 
 
 
-    fn rank ( & self , value : f64 ) -> ( r : Option < f64 > ) ensures
+
+
+
+    fn rank ( & self , value : f64 ) -> ( r : Option < f64 > ) requires self . wf ( ) ensures
 /*@C10.rank_value_validated*/ ! f_is_nan ( value ) ,
 /*@C10.rank_shape*/ r is None <==> self . centroids @ . len ( ) == 0 ,
 /*@C10.rank_delegates*/ r == view_rank_spec ( self . min , self . max , self . centroids @ , self . centroids_weight , value ) {
@@ -747,20 +1353,34 @@ self . view ( ) . rank ( value ) }
 
 
 
+
+
+
     fn quantile ( & self , rank : f64 ) -> ( r : Option < f64 > ) ensures
 /*@C10.quantile_rank_validated*/ f_in_unit ( rank ) ,
 /*@C10.quantile_shape*/ r is None <==> self . centroids @ . len ( ) == 0 ,
-/*@C10.quantile_delegates*/ r == view_quantile_spec ( self . min , self . max , self . centroids @ , self . centroids_weight , rank ) {
+/*@C10.quantile_delegates*/ r == view_quantile_spec ( self . min , self . max , self . centroids @ , self . centroids_weight , rank ) ,
+/*@C10.quantile_in_range_except_tail_formulas*/ ( self . wf ( ) && self . centroids @ . len ( ) > 0 && ! q_in_tail ( self . centroids @ , self . centroids_weight , rank ) ) ==> ( r matches Some ( v ) && f_in ( self . min , v , self . max ) ) {
 vx_documented_panic ( vx_in_unit_interval ( & rank ) ) ;
 self . view ( ) . quantile ( rank ) }
 
 
 
 
+
+
+
     fn unfreeze ( self ) -> ( r : TDigestMut ) requires self . wf ( ) ensures r . wf ( ) ,
 /*@C10.unfreeze_keeps_total*/ r . total ( ) == self . centroids_weight , r . k == self . k , r . centroids @ == self . centroids @ , {
-assert ( /*@C17.td.make_k_established*/ self . k >= 10 ) ;
+assert (
+/*@C17.td.make_k_established*/ self . k >= 10 ) ;
+proof {
+lemma_values_empty ( Seq :: < f64 > :: empty ( ) ) ;
+}
 TDigestMut :: make ( self . k , self . reverse_merge , self . min , self . max , self . centroids , self . centroids_weight , vec! [ ] , ) }
+
+
+
 
 
 
@@ -768,20 +1388,219 @@ TDigestMut :: make ( self . k , self . reverse_merge , self . min , self . max ,
 }
 
 impl TDigestView<'_> {
-    // float interpolation: opaque; ASSUMED only the None/Some shape (first statements of the real body)
-    #[verifier::external_body]
-    fn quantile(&self, rank: f64) -> (r: Option<f64>)
-      requires f_in_unit(rank)
-      ensures r is None <==> self.centroids@.len() == 0, r == view_quantile_spec(self.min, self.max, self.centroids@, self.centroids_weight, rank)
-    { unimplemented!() }
+    spec fn wf(&self) -> bool { view_wf(self.min, self.max, self.centroids@) }
+    // what the query functions need: nothing of an empty view (they answer None), the view invariant otherwise
+    spec fn queryable(&self) -> bool { self.centroids@.len() == 0 || self.wf() }
 
-    #[verifier::external_body]
-    fn rank(&self, value: f64) -> (r: Option<f64>)
-      requires !f_is_nan(value)
-      ensures r is None <==> self.centroids@.len() == 0, r == view_rank_spec(self.min, self.max, self.centroids@, self.centroids_weight, value)
-    { unimplemented!() }
+    fn rank ( & self , value : f64 ) -> ( r : Option < f64 > ) requires ! f_is_nan ( value ) , self . queryable ( ) ensures
+/*@C10.rank_shape*/ r is None <==> self . centroids @ . len ( ) == 0 ,
+/*@C10.rank_reference*/ r == view_rank_spec ( self . min , self . max , self . centroids @ , self . centroids_weight , value ) {
+proof {
+axiom_float_total ( ) ;
+axiom_f64_ops_deterministic ( ) ;
+}
+let ghost cs = self . centroids @ ;
+debug_assert! ( ! value . is_nan ( ) ) ;
+if self . centroids . is_empty ( ) {
+return None ;
+}
+if value < self . min {
+return Some ( 0.0 ) ;
+}
+if value > self . max {
+return Some ( 1.0 ) ;
+}
+if self . centroids . len ( ) == 1 {
+return Some ( 0.5 ) ;
+}
+let centroids_weight = vx_u64_as_f64 ( self . centroids_weight ) ;
+let num_centroids = self . centroids . len ( ) ;
+let first_mean = self . centroids [ 0 ] . mean ;
+proof {
+axiom_float_total_at ( first_mean , self . min ) ;
+}
+if value < first_mean {
+if first_mean - self . min > 0. {
+return Some ( if value == self . min {
+0.5 / centroids_weight }
+else {
+( 1. + ( ( ( value - self . min ) / ( first_mean - self . min ) ) * ( ( self . centroids [ 0 ] . weight ( ) / 2. ) - 1. ) ) ) / centroids_weight }
+) ;
+}
+return Some ( 0. ) ;
+}
+let last_mean = self . centroids [ num_centroids - 1 ] . mean ;
+proof {
+axiom_float_total_at ( last_mean , self . max ) ;
+}
+if value > last_mean {
+if self . max - last_mean > 0. {
+return Some ( if value == self . max {
+1. - ( 0.5 / centroids_weight ) }
+else {
+1.0 - ( ( 1.0 + ( ( ( self . max - value ) / ( self . max - last_mean ) ) * ( ( self . centroids [ num_centroids - 1 ] . weight ( ) / 2. ) - 1. ) ) ) / centroids_weight ) }
+) ;
+}
+return Some ( 1. ) ;
+}
+proof {
+lemma_sorted_partitioned ( cs , value ) ;
+}
+let mut lower = vx_lower_bound ( self . centroids , value ) ;
+proof {
+lemma_pp_lt ( cs , value , lower as int , 0 ) ;
+axiom_f64_cmp_flip ( cs [ num_centroids - 1 ] . mean , value ) ;
+}
+assert! ( lower != num_centroids ) ;
+let mut upper = vx_upper_bound ( self . centroids , value ) ;
+proof {
+lemma_pp_gt ( cs , value , upper as int , 0 ) ;
+axiom_f64_cmp_flip ( value , cs [ 0 ] . mean ) ;
+}
+assert! ( upper != 0 ) ;
+let ghost lo0 = lower as int ;
+let ghost up0 = upper as int ;
+assert (
+/*@C10.rank_reference*/ lo0 == pp_lt ( cs , value , 0 ) ) ;
+assert (
+/*@C10.rank_reference*/ up0 == pp_gt ( cs , value , 0 ) ) ;
+if value < self . centroids [ lower ] . mean {
+lower -= 1 ;
+}
+if ( upper == num_centroids ) || ( self . centroids [ upper - 1 ] . mean >= value ) {
+upper -= 1 ;
+}
+assert (
+/*@C10.rank_reference*/ lower == rank_lower ( cs , value ) ) ;
+assert (
+/*@C10.rank_reference*/ upper == rank_upper ( cs , value ) ) ;
+let mut weight_below = 0. ;
+let mut i = 0 ;
+while i < lower invariant i <= lower , lower < num_centroids , num_centroids == self . centroids @ . len ( ) , cs == self . centroids @ ,
+/*@C10.rank_reference*/ fsum ( cs , i as int , lower as int , weight_below ) == fsum ( cs , 0 , lower as int , 0.0f64 ) , decreases lower - i {
+proof {
+axiom_float_total ( ) ;
+axiom_f64_ops_deterministic ( ) ;
+}
+weight_below = weight_below + self . centroids [ i ] . weight ( ) ;
+i += 1 ;
+}
+weight_below = weight_below + self . centroids [ lower ] . weight ( ) / 2. ;
+let mut weight_delta = 0. ;
+let ghost i0 = i as int ;
+while i < upper invariant i0 <= i , i0 < upper ==> i <= upper , upper < num_centroids , num_centroids == self . centroids @ . len ( ) , cs == self . centroids @ ,
+/*@C10.rank_reference*/ fsum ( cs , i as int , upper as int , weight_delta ) == fsum ( cs , i0 , upper as int , 0.0f64 ) , decreases upper - i {
+proof {
+axiom_float_total ( ) ;
+axiom_f64_ops_deterministic ( ) ;
+}
+weight_delta = weight_delta + self . centroids [ i ] . weight ( ) ;
+i += 1 ;
+}
+weight_delta = weight_delta - self . centroids [ lower ] . weight ( ) / 2. ;
+weight_delta = weight_delta + self . centroids [ upper ] . weight ( ) / 2. ;
+proof {
+axiom_float_total_at ( cs [ lower as int ] . mean , value ) ;
+axiom_float_total_at ( cs [ lower as int ] . mean , cs [ upper as int ] . mean ) ;
+}
+Some ( if self . centroids [ upper ] . mean - self . centroids [ lower ] . mean > 0. {
+( weight_below + ( weight_delta * ( value - self . centroids [ lower ] . mean ) / ( self . centroids [ upper ] . mean - self . centroids [ lower ] . mean ) ) ) / centroids_weight }
+else {
+( weight_below + weight_delta / 2. ) / centroids_weight }
+, ) }
 
-    fn pmf ( & self , split_points : & [ f64 ] ) -> ( r : Option < Vec < f64 >> ) ensures
+
+
+
+    fn quantile ( & self , rank : f64 ) -> ( r : Option < f64 > ) requires f_in_unit ( rank ) ensures
+/*@C10.quantile_shape*/ r is None <==> self . centroids @ . len ( ) == 0 ,
+/*@C10.quantile_reference*/ r == view_quantile_spec ( self . min , self . max , self . centroids @ , self . centroids_weight , rank ) ,
+/*@C10.quantile_in_range_except_tail_formulas*/ ( self . wf ( ) && ! q_in_tail ( self . centroids @ , self . centroids_weight , rank ) ) ==> ( r matches Some ( v ) && f_in ( self . min , v , self . max ) ) {
+proof {
+axiom_float_total ( ) ;
+axiom_f64_ops_deterministic ( ) ;
+}
+let ghost cs = self . centroids @ ;
+proof {
+if self . wf ( ) {
+lemma_view_range ( self . min , self . max , cs , 0 ) ;
+lemma_last_to_max_in_range ( self . min , self . max , cs ) ;
+}
+}
+debug_assert! ( vx_in_unit_interval ( & rank ) ) ;
+if self . centroids . is_empty ( ) {
+return None ;
+}
+if self . centroids . len ( ) == 1 {
+return Some ( self . centroids [ 0 ] . mean ) ;
+}
+let centroids_weight = vx_u64_as_f64 ( self . centroids_weight ) ;
+let num_centroids = self . centroids . len ( ) ;
+let weight = rank * centroids_weight ;
+if weight < 1. {
+return Some ( self . min ) ;
+}
+if weight > centroids_weight - 1. {
+return Some ( self . max ) ;
+}
+let first_weight = self . centroids [ 0 ] . weight ( ) ;
+proof {
+axiom_float_total_at ( cs [ 0 ] . mean , self . min ) ;
+axiom_float_total_at ( cs [ num_centroids - 1 ] . mean , self . max ) ;
+}
+if first_weight > 1. && weight < first_weight / 2. {
+return Some ( self . min + ( ( ( weight - 1. ) / ( ( first_weight / 2. ) - 1. ) ) * ( self . centroids [ 0 ] . mean - self . min ) ) , ) ;
+}
+let last_weight = self . centroids [ num_centroids - 1 ] . weight ( ) ;
+if last_weight > 1. && ( centroids_weight - weight <= last_weight / 2. ) {
+return Some ( self . max - ( ( ( centroids_weight - weight - 1. ) / ( ( last_weight / 2. ) - 1. ) ) * ( self . max - self . centroids [ num_centroids - 1 ] . mean ) ) , ) ;
+}
+let mut weight_so_far = first_weight / 2. ;
+let ghost ref_q = q_walk ( self . max , cs , centroids_weight , weight , 0 , weight_so_far ) ;
+for i in 0 .. ( num_centroids - 1 ) invariant num_centroids == self . centroids @ . len ( ) , num_centroids >= 2 , cs == self . centroids @ ,
+/*@C10.quantile_reference*/ view_quantile_spec ( self . min , self . max , cs , self . centroids_weight , rank ) == Some ( ref_q ) ,
+/*@C10.quantile_reference*/ q_walk ( self . max , cs , centroids_weight , weight , i as int , weight_so_far ) == ref_q , {
+proof {
+axiom_float_total ( ) ;
+axiom_f64_ops_deterministic ( ) ;
+}
+let dw = ( self . centroids [ i ] . weight ( ) + self . centroids [ i + 1 ] . weight ( ) ) / 2. ;
+proof {
+if self . wf ( ) {
+lemma_view_range ( self . min , self . max , cs , i as int ) ;
+lemma_view_range ( self . min , self . max , cs , i + 1 ) ;
+lemma_between_in_range ( self . min , self . max , cs , i as int ) ;
+}
+}
+if weight_so_far + dw > weight {
+let mut left_weight = 0. ;
+if self . centroids [ i ] . weight . get ( ) == 1 {
+if weight - weight_so_far < 0.5 {
+return Some ( self . centroids [ i ] . mean ) ;
+}
+left_weight = 0.5 ;
+}
+let mut right_weight = 0. ;
+if self . centroids [ i + 1 ] . weight . get ( ) == 1 {
+if weight_so_far + dw - weight <= 0.5 {
+return Some ( self . centroids [ i + 1 ] . mean ) ;
+}
+right_weight = 0.5 ;
+}
+let w1 = weight - weight_so_far - left_weight ;
+let w2 = weight_so_far + dw - weight - right_weight ;
+return Some ( weighted_average ( self . centroids [ i ] . mean , w2 , self . centroids [ i + 1 ] . mean , w1 , ) ) ;
+}
+weight_so_far = weight_so_far + dw ;
+}
+let w1 = weight - ( centroids_weight ) - ( ( self . centroids [ num_centroids - 1 ] . weight ( ) ) / 2. ) ;
+let w2 = ( self . centroids [ num_centroids - 1 ] . weight ( ) / 2. ) - w1 ;
+Some ( weighted_average ( self . centroids [ num_centroids - 1 ] . mean , w1 , self . max , w2 , ) ) }
+
+
+
+
+    fn pmf ( & self , split_points : & [ f64 ] ) -> ( r : Option < Vec < f64 >> ) requires self . queryable ( ) ensures
 /*@C10.split_points_validated*/ sp_valid ( split_points @ ) ,
 /*@C10.pmf_shape*/ r is None <==> self . centroids @ . len ( ) == 0 ,
 /*@C10.cdf_pmf_len*/ r matches Some ( v ) ==> v @ . len ( ) == split_points @ . len ( ) + 1 , {
@@ -802,7 +1621,10 @@ Some ( buckets ) }
 
 
 
-    fn cdf ( & self , split_points : & [ f64 ] ) -> ( r : Option < Vec < f64 >> ) ensures
+
+
+
+    fn cdf ( & self , split_points : & [ f64 ] ) -> ( r : Option < Vec < f64 >> ) requires self . queryable ( ) ensures
 /*@C10.split_points_validated*/ sp_valid ( split_points @ ) ,
 /*@C10.cdf_shape*/ r is None <==> self . centroids @ . len ( ) == 0 ,
 /*@C10.cdf_pmf_len*/ r matches Some ( v ) ==> v @ . len ( ) == split_points @ . len ( ) + 1 , {
@@ -815,7 +1637,7 @@ axiom_f64_slice_len ( split_points ) ;
 }
 let mut ranks = Vec :: with_capacity ( split_points . len ( ) + 1 ) ;
 let mut vx_i1 = 0 ;
-while vx_i1 < split_points . len ( ) invariant vx_i1 <= split_points @ . len ( ) , ranks @ . len ( ) == vx_i1 , self . centroids @ . len ( ) > 0 , split_points @ . len ( ) == 1 ==> ! f_is_nan ( split_points @ [ 0 ] ) , forall | i : int | 0 <= i < split_points @ . len ( ) - 1 ==> f_lt ( # [ trigger ] split_points @ [ i ] , split_points @ [ i + 1 ] ) , decreases split_points @ . len ( ) - vx_i1 {
+while vx_i1 < split_points . len ( ) invariant vx_i1 <= split_points @ . len ( ) , ranks @ . len ( ) == vx_i1 , self . centroids @ . len ( ) > 0 , self . queryable ( ) , split_points @ . len ( ) == 1 ==> ! f_is_nan ( split_points @ [ 0 ] ) , forall | i : int | 0 <= i < split_points @ . len ( ) - 1 ==> f_lt ( # [ trigger ] split_points @ [ i ] , split_points @ [ i + 1 ] ) , decreases split_points @ . len ( ) - vx_i1 {
 let p = split_points [ vx_i1 ] ;
 proof {
 if split_points @ . len ( ) > 1 {
@@ -833,6 +1655,9 @@ vx_i1 += 1 ;
 }
 ranks . push ( 1.0 ) ;
 Some ( ranks ) }
+
+
+
 
 
 
